@@ -91,6 +91,8 @@ type Ev struct {
 	Recs []Lin     `json:"recs,omitempty"` // records written / processed
 	Out  []string  `json:"out,omitempty"`  // processor result kinds, aligned or not with Recs
 	Acks []AckInfo `json:"acks,omitempty"`
+	// Stamps: per written record, the processor generations that handled it ("p1=1,p3=2").
+	Stamps []string `json:"stamps,omitempty"`
 
 	Op   string `json:"op,omitempty"`
 	Arg  string `json:"arg,omitempty"`
